@@ -19,13 +19,13 @@ TInit == /\ tid \in 1..Len(Traces) /\ l = 1 /\ seen = 0
          /\ st = Main(Init0(Traces[tid].prog), Traces[tid].prog, Traces[tid].mode, 1)
 
 SameObs(a, b) == a.k = b.k /\ a.r = b.r /\ a.n = b.n /\ a.secs = b.secs /\ a.beats = b.beats /\ a.tag = b.tag
-                 /\ a.sk = b.sk /\ a.stamp = b.stamp /\ a.subk = b.subk /\ a.sub = b.sub
+                 /\ a.sk = b.sk /\ a.stamp = b.stamp /\ a.subk = b.subk /\ a.sub = b.sub /\ a.sub2 = b.sub2
 
 (* NRT score = root node, then every send and the tail marker (added last, at last wake + tail) in
    (time, send order).  The marker closes the score whenever no bundle is stamped later than it
    (DESIGN 1.4); the general form is checked here.                                            *)
 ScoreWhy(T, s) ==
-    LET marker == [time |-> s.last + T.tail, seq |-> Len(s.sends), tag |-> "/c_set", subk |-> "-", sub |-> 0]
+    LET marker == [time |-> s.last + T.tail, seq |-> Len(s.sends), tag |-> "/c_set", subk |-> "-", sub |-> 0, sub2 |-> 0]
         exp == ExpectedScore([s EXCEPT !.sends = Append(s.sends, marker)])
         got == T.score
         n == Len(got) IN
